@@ -337,6 +337,37 @@ def _integrate_over(expr: ast.AST, generators: Sequence[ast.comprehension]) -> a
     return _sympy_expr_to_ast(sym_expr)
 
 
+def _as_operand(replacement: ast.AST, node: ast.AST, root: ast.AST) -> str:
+    """Code for the replacement of node: in parentheses wherever it is an operand of something.
+
+    The rewrite is textual: `sum(range(-3, 0)) ** 2` must become `(-6) ** 2`, not `-6 ** 2`.
+    """
+    code = core.unparse(replacement).strip()
+    expression = ast.parse(code, mode="eval").body
+    if isinstance(expression, ast.Name):
+        return code
+    if isinstance(expression, ast.Constant) and not any(
+        parent.value is node for parent in core.walk(root, ast.Attribute)
+    ):
+        return code  # (3).real needs its parentheses
+
+    for parent in ast.walk(root):
+        if isinstance(parent, (ast.Assign, ast.AugAssign, ast.AnnAssign, ast.Return, ast.Expr)):
+            if parent.value is node:
+                return code
+        elif isinstance(parent, ast.Call):
+            if any(arg is node for arg in parent.args):
+                return code
+        elif isinstance(parent, ast.keyword):
+            if parent.value is node:
+                return code
+        elif isinstance(parent, (ast.Tuple, ast.List, ast.Set)):
+            if any(elt is node for elt in parent.elts):
+                return code
+
+    return f"({code})"
+
+
 @processing.fix
 def simplify_math_iterators(source: str) -> str:
     root = core.parse(source)
@@ -382,7 +413,7 @@ def simplify_math_iterators(source: str) -> str:
                 replacement = _sum_range(arg)
             except (NotImplementedError, ValueError, ArithmeticError):
                 continue
-            yield node, replacement
+            yield node, _as_operand(replacement, node, root)
 
         elif core.match_template(arg, basic_collection_template):
             if any(core.walk(arg, ast.Attribute)):
@@ -401,7 +432,7 @@ def simplify_math_iterators(source: str) -> str:
                 replacement = _sum_constants(arg.elts)
             except (ValueError, ArithmeticError):
                 continue
-            yield node, replacement
+            yield node, _as_operand(replacement, node, root)
 
         elif core.match_template(arg, basic_comprehension_template):
             if any(core.walk(arg, (ast.Attribute, ast.Subscript))):
@@ -415,7 +446,7 @@ def simplify_math_iterators(source: str) -> str:
                 replacement = _integrate_over(arg.elt, arg.generators)
             except (NotImplementedError, ValueError, ArithmeticError):
                 continue
-            yield node, replacement
+            yield node, _as_operand(replacement, node, root)
 
 
 @processing.fix
